@@ -500,6 +500,34 @@ var c03Catalogue = func() []c03Cat {
 		}
 		return "@r1 d\n" + strings.Repeat("a", l) + "\n+\n" + strings.Repeat("I", q)
 	}})
+	cat = append(cat, c03Cat{"fastq", "fastq quality line longer than the sequence by stray high bytes", func(rng *rand.Rand) string {
+		// surplus bytes that are not white space: lone 0x85 / 0xA0 (white space only as the second byte of C2 85 / C2 A0),
+		// other bytes >= 0x80, DEL, NUL
+		l := 2 + rng.Intn(20)
+		extra := make([]byte, 1+rng.Intn(3))
+		for i := range extra {
+			extra[i] = []byte{0x85, 0xa0, 0x80, 0xff, 0x7f, 0x00, 0xc2, byte(0x80 + rng.Intn(128))}[rng.Intn(8)]
+		}
+		if extra[len(extra)-1] == 0xc2 {
+			extra[len(extra)-1] = 0xa0
+		}
+		for i := 0; i+1 < len(extra); i++ {
+			if extra[i] == 0xc2 && (extra[i+1] == 0x85 || extra[i+1] == 0xa0) {
+				extra[i] = 0xa0 // C2 85 and C2 A0 are white space and would be stripped
+			}
+		}
+		q := strings.Repeat("I", l)
+		switch rng.Intn(3) {
+		case 0:
+			q += string(extra)
+		case 1:
+			q = string(extra) + q
+		default:
+			p := rng.Intn(l + 1)
+			q = q[:p] + string(extra) + q[p:]
+		}
+		return "@r1 d\n" + strings.Repeat("a", l) + "\n+\n" + q
+	}})
 	cat = append(cat, c03Cat{"fastq", "fastq + line not repeating the header", func(rng *rand.Rand) string {
 		return "@r1 d\nacgt\n+r2\nIIII"
 	}})
